@@ -130,6 +130,12 @@ func RunHistory(o HistOpts) *HistResult {
 
 // Teardown stops and removes everything the runtime knows, in lifecycle order.
 func Teardown(r *Runner) {
+	if r.Deaf {
+		r.Do(&Step{Op: "sync"})
+		if r.Broken {
+			return
+		}
+	}
 	for _, k := range r.M.CtrKeys() {
 		c := r.M.Ctrs[k]
 		if c.Live() {
